@@ -523,12 +523,37 @@ static void replay_script(void) {
     }
   }
 }
-/* forget the recorder's state completely (also after a trapped abort, when it is in an arbitrary state) */
+/* forget the recorder's state completely.  After a trapped abort the graph may be half-built: it is not walked,
+   but the memory the recorder owns (node pages, prune stacks, the per-worker array) is given back so that millions
+   of trapped cases do not exhaust memory. */
 static void recorder_reset(int orderly) {
   if (orderly && GS.initialized) { cur_worker = 0; dr_cleanup__("cleanup.c", 1, 0, cur_nworkers); }
+  else if (GS.worker_specific_state_array) {
+    for (int i = 0; i < GS.worker_specific_state_array_sz; i++) {
+      dr_worker_specific_state * w = &GS.worker_specific_state_array[i];
+      for (dr_dag_node_page * pg = w->freelist->pages, * nx; pg; pg = nx) { nx = pg->next; free(pg); }
+      free(w->prune_stack->entries);
+    }
+    free(GS.worker_specific_state_array);
+  }
   if (GS.worker_specific_state_key_valid) pthread_key_delete(GS.worker_specific_state_key);
   if (GS.worker_id_key_valid) pthread_key_delete(GS.worker_id_key);
   memset(&GS, 0, sizeof GS);
+}
+
+/* a hash of everything a dumped DAG consists of (used to recognise option settings that leave identical graphs) */
+static unsigned long long fnv(unsigned long long h, const void * p, size_t n) {
+  const unsigned char * b = p; size_t i = 0;
+  for (; i + 8 <= n; i += 8) { unsigned long long w; memcpy(&w, b + i, 8); h = (h ^ w) * 1099511628211ULL; h ^= h >> 29; }
+  for (; i < n; i++) { h ^= b[i]; h *= 1099511628211ULL; }
+  return h;
+}
+static unsigned long long pi_hash(const dr_pi_dag * G) {
+  unsigned long long h = 1469598103934665603ULL;
+  h = fnv(h, &G->n, sizeof G->n); h = fnv(h, &G->m, sizeof G->m); h = fnv(h, &G->num_workers, sizeof G->num_workers);
+  h = fnv(h, G->T, sizeof(dr_pi_dag_node) * G->n); h = fnv(h, G->E, sizeof(dr_pi_dag_edge) * G->m);
+  h = fnv(h, &G->S->n, sizeof G->S->n); h = fnv(h, G->S->I, sizeof(long) * G->S->n); h = fnv(h, G->S->C, G->S->sz - sizeof(dr_pi_string_table) - sizeof(long) * G->S->n);
+  return h;
 }
 
 /* ------------------------------------------------------------------ findings, classes, shared slots */
@@ -793,7 +818,10 @@ static int dag_main(int argc, char ** argv, const char * property, const char * 
     if (k == NPROC) continue;
     slot_t * sl = &SLOTS[k];
     if (sl->done) { live--; continue; }
-    if (sl->engine_error || !sl->in_case || crashes > 2000) { SQ.engine_error = 1; live--; fprintf(stderr, "worker %d died outside a case (status %x)\n", k, st); continue; }
+    /* only a synchronous fault is the recorder's doing; SIGKILL (out of memory, an operator) is an engine problem */
+    int sig = WIFSIGNALED(st) ? WTERMSIG(st) : 0;
+    int faulted = sig == SIGSEGV || sig == SIGBUS || sig == SIGFPE || sig == SIGILL || sig == SIGABRT;
+    if (sl->engine_error || !sl->in_case || !faulted || crashes > 2000) { SQ.engine_error = 1; live--; fprintf(stderr, "worker %d died (wait status 0x%x)%s\n", k, st, sl->in_case ? "" : " outside a case"); continue; }
     /* the recorder killed the worker (signal) inside a case: a finding; continue behind that case */
     crashes++;
     char cls[100]; snprintf(cls, sizeof cls, "abort:signal:%s", WIFSIGNALED(st) ? strsignal(WTERMSIG(st)) : "exit");
